@@ -126,27 +126,12 @@ func c03Probe(r *Router, t *ref.Table, paths []string, hist []string, cfg string
 			vec.obs = append(vec.obs, o)
 			outcomes[fmt.Sprintf("%d/%s/%s", o.Status, o.Kind, o.Pattern)] = struct{}{}
 			if class, obs, exp := CheckDispatch(t, q, o, e); class != "" {
-				*out = append(*out, explore.Violation{Property: prop, Clause: prop + ".dispatch", Class: class, Config: cfg, History: hist, Probe: q.String(), Observed: obs, Expected: exp,
-					Replay: mustJSON(histReplay{Kind: "dispatch", Router: RouterCfgFromString(cfg), Ops: nil, Req: q})})
+				*out = append(*out, explore.Violation{Property: prop, Clause: prop + ".dispatch", Class: class, Config: cfg, History: hist, Probe: q.String(), Observed: obs, Expected: exp})
 			}
 		}
 	}
 	return
 }
-
-// histReplay is the replay recipe shared by the history-based properties.
-type histReplay struct {
-	Kind   string    `json:"kind"`
-	Router RouterCfg `json:"router"`
-	Ops    []Op      `json:"ops"`
-	Req    hv.Req    `json:"req"`
-	Extra  string    `json:"extra,omitempty"`
-}
-
-var cfgRegistry = map[string]RouterCfg{}
-
-// RouterCfgFromString is the inverse of RouterCfg.String for registered configs.
-func RouterCfgFromString(s string) RouterCfg { return cfgRegistry[s] }
 
 func mustJSON(v any) json.RawMessage {
 	b, err := json.Marshal(v)
@@ -187,7 +172,6 @@ func c03Expand(raw json.RawMessage) (any, error) {
 	if err := json.Unmarshal(in.Cfg, &cfg); err != nil {
 		return nil, err
 	}
-	cfgRegistry[cfg.Router.String()] = cfg.Router
 	alpha := c03Alphabet()
 	ic := Interceptors(cfg.Router.IC)
 	paths := c03Paths(ic)
@@ -205,13 +189,12 @@ func c03Expand(raw json.RawMessage) (any, error) {
 	var rootV []explore.Violation
 	rootOut := map[string]struct{}{}
 	before, n0 := c03Probe(pr, pt, paths, opsStrings(hist), cfg.Router.String(), "C03", &rootV, rootOut)
-	if len(in.History) == 0 {
-		fixReplays(rootV, cfg.Router, hist)
+	if len(in.History) == 0 && in.Want(-1) {
 		kids = append(kids, explore.Child{Op: -1, Key: explore.Key(pr) + "|" + pt.String(), Viols: rootV, Probes: n0, Outcomes: keys(rootOut)})
 	}
 
 	for k, op := range alpha {
-		if !Enabled(pt, op) {
+		if !Enabled(pt, op) || !in.Want(k) {
 			continue
 		}
 		full := append(append([]Op{}, hist...), op)
@@ -221,8 +204,7 @@ func c03Expand(raw json.RawMessage) (any, error) {
 		outc := map[string]struct{}{}
 		if v, bad := ApplyImpl(r, op); bad {
 			c.Viols = append(c.Viols, explore.Violation{Property: "C03", Clause: "C03.no-panic", Class: "op-panic:" + shortPanic(v), Config: cfg.Router.String(), History: hs,
-				Observed: fmt.Sprintf("%s panicked: %v", op, v), Expected: "no panic",
-				Replay: mustJSON(histReplay{Kind: "op", Router: cfg.Router, Ops: full})})
+				Observed: fmt.Sprintf("%s panicked: %v", op, v), Expected: "no panic"})
 			c.Key = "panic:" + explore.Key(r)
 			c.NoExpand = true
 			kids = append(kids, c)
@@ -233,8 +215,7 @@ func c03Expand(raw json.RawMessage) (any, error) {
 		got, want := RoutesString(RoutesOf(r)), RoutesString(ModelRoutes(t))
 		if got != want {
 			c.Viols = append(c.Viols, explore.Violation{Property: "C03", Clause: "C03.routes", Class: routesClass(RoutesOf(r), ModelRoutes(t)), Config: cfg.Router.String(), History: hs,
-				Probe: "Routes()", Observed: got, Expected: want,
-				Replay: mustJSON(histReplay{Kind: "routes", Router: cfg.Router, Ops: full})})
+				Probe: "Routes()", Observed: got, Expected: want})
 		}
 		after, n := c03Probe(r, t, paths, hs, cfg.Router.String(), "C03", &c.Viols, outc)
 		c.Probes = n + 1
@@ -251,12 +232,10 @@ func c03Expand(raw json.RawMessage) (any, error) {
 			}
 			if b, a := before.obs[i].Summary(), after.obs[i].Summary(); a != b {
 				c.Viols = append(c.Viols, explore.Violation{Property: "C03", Clause: "C03.frame", Class: "frame-broken", Config: cfg.Router.String(), History: hs,
-					Probe: q.String(), Observed: "before: " + b + " ; after: " + a, Expected: "unchanged by " + op.String(),
-					Replay: mustJSON(histReplay{Kind: "frame", Router: cfg.Router, Ops: full, Req: q})})
+					Probe: q.String(), Observed: "before: " + b + " ; after: " + a, Expected: "unchanged by " + op.String()})
 				break
 			}
 		}
-		fixReplays(c.Viols, cfg.Router, full)
 		c.Key = explore.Key(r) + "|" + t.String()
 		c.Outcomes = keys(outc)
 		if len(in.History) < 1 && k < 3 {
@@ -292,17 +271,6 @@ func modelHandler(t *ref.Table, q hv.Req, e Expect) string {
 		}
 	}
 	return strings.Join(hs, "|")
-}
-
-func fixReplays(vs []explore.Violation, cfg RouterCfg, ops []Op) {
-	for i := range vs {
-		var h histReplay
-		if json.Unmarshal(vs[i].Replay, &h) == nil {
-			h.Router = cfg
-			h.Ops = ops
-			vs[i].Replay = mustJSON(h)
-		}
-	}
 }
 
 func routesClass(got, want map[string][]string) string {
@@ -356,55 +324,9 @@ func keys(m map[string]struct{}) []string {
 	return ks
 }
 
-// replayHist re-executes a history-based violation without the explorer.
-func replayHist(raw json.RawMessage) (string, error) {
-	var h histReplay
-	if err := json.Unmarshal(raw, &h); err != nil {
-		return "", err
-	}
-	switch h.Kind {
-	case "op":
-		r, _, _ := buildHistory(h.Router, h.Ops[:len(h.Ops)-1])
-		op := h.Ops[len(h.Ops)-1]
-		if v, bad := ApplyImpl(r, op); bad {
-			return fmt.Sprintf("%s panicked: %v", op, v), nil
-		}
-		return "no panic", nil
-	case "routes":
-		r, _, perr := buildHistory(h.Router, h.Ops)
-		if perr != "" {
-			return perr, nil
-		}
-		return RoutesString(RoutesOf(r)), nil
-	case "dispatch":
-		r, _, perr := buildHistory(h.Router, h.Ops)
-		if perr != "" {
-			return perr, nil
-		}
-		o := hv.Serve(r, h.Req)
-		if o.Paniced {
-			return fmt.Sprintf("panic: %v", o.Panic), nil
-		}
-		if o.Called != 1 {
-			return fmt.Sprintf("CallFunc invoked %d times", o.Called), nil
-		}
-		return o.Summary(), nil
-	case "frame":
-		r, _, perr := buildHistory(h.Router, h.Ops[:len(h.Ops)-1])
-		if perr != "" {
-			return perr, nil
-		}
-		b := hv.Serve(r, h.Req).Summary()
-		ApplyImpl(r, h.Ops[len(h.Ops)-1])
-		a := hv.Serve(r, h.Req).Summary()
-		return "before: " + b + " ; after: " + a, nil
-	}
-	return "", fmt.Errorf("unknown replay kind %q", h.Kind)
-}
-
 func init() {
 	explore.RegisterJob("c03/expand", c03Expand)
-	explore.Register(&explore.Check{ID: "C03", Replay: replayHist, Run: func(rc *explore.RunCtx) {
+	explore.Register(&explore.Check{ID: "C03", Run: func(rc *explore.RunCtx) {
 		depth := 3
 		if !rc.Quick() {
 			depth = 5
